@@ -843,3 +843,44 @@ def r11_e(ctx):
         rr.fail(Finding('R11.e', 'tokens', 'SKIP_ENV_NAMES', 'SKIP_ENV_NAMES lacks %s' % missing,
                         'the environments %s are no longer read raw: their bodies are parsed as LaTeX' % missing, line=0))
     return rr
+
+
+def r07_f(ctx):
+    """every parse error a tolerance-carrying reader can raise is conditional on the tolerance"""
+    repo = ctx.repo
+    R = roles(ctx)
+    rr = RuleResult('R07.f', 'in every reader function that carries the tolerance option, each `raise` and each call of a '
+                    'never-returning error helper is dominated by a test of that option: no parse error is raised '
+                    'whatever the tolerance (assertions about the *code* -- AssertionError -- are not parse errors)',
+                    floor=2)
+    noreturn = _noreturn_funcs(repo)
+    from . import rules_reader
+    n = 0
+    # C07 is stated for documents "without math, verbatim or list regions": the readers of those regions are exempt
+    exempt = {'read_math_env': 'math regions are outside C07', 'read_item': 'list regions are outside C07',
+              'read_skip_env': 'verbatim regions are outside C07'}
+    for fd in repo.modules['reader'].functions.values():
+        if not R.has_role(fd, 'tolerance') or fd.name in noreturn:
+            continue
+        if fd.name in exempt:
+            rr.ob(True, {'function': fd.qual, 'exempt': exempt[fd.name]})
+            continue
+        tol = R.local_taint(fd, 'tolerance')
+        sites = []
+        for x in ast.walk(fd.node):
+            if isinstance(x, ast.Raise):
+                sites.append(x)
+            elif isinstance(x, ast.Call) and isinstance(x.func, ast.Name) and x.func.id in noreturn:
+                sites.append(x)
+        for x in sites:
+            n += 1
+            guards = rules_reader._guards_dominating(fd, x)
+            ok = any(any(isinstance(y, ast.Name) and y.id in tol for y in ast.walk(t)) for t, _tr in guards)
+            rr.ob(ok, {'function': fd.qual, 'error_site': norm(x)[:60], 'guarded_by_tolerance': ok})
+            if not ok:
+                rr.fail(Finding('R07.f', 'reader', fd.qual, x, '%s raises a parse error (%s) on a path that does not test the '
+                                'tolerance: tolerant parsing fails where it should recover' % (fd.qual, norm(x)[:50]),
+                                line=x.lineno))
+    if n == 0:
+        raise AnalysisError('no error site found in the tolerance-carrying readers')
+    return rr
